@@ -414,10 +414,31 @@ pub fn edit_program<R: Rng>(rng: &mut R, p: &mut Program) -> String {
                 what = "added a variant";
             } else {
                 let i = rng.gen_range(0..vs.len());
-                match rng.gen_range(0..3) {
+                match rng.gen_range(0..6) {
                     0 => {
                         vs[i].name = "RenamedVariant".into();
                         what = "renamed a variant";
+                    }
+                    // the field list of one variant: emptied (unit variant), given a first member,
+                    // one member more, one member less - the boundary cases of a field-by-field
+                    // comparison
+                    3 if !vs[i].fields.is_empty() => {
+                        vs[i].fields.clear();
+                        vs[i].style = Style::Unit;
+                        what = "made a variant a unit variant";
+                    }
+                    4 => {
+                        if vs[i].fields.is_empty() {
+                            vs[i].style = Style::Unnamed;
+                        }
+                        let named = vs[i].style == Style::Named;
+                        let n = vs[i].fields.len();
+                        vs[i].fields.push(FieldDecl { name: named.then(|| format!("more{n}")), ty: Ty::Prim(Prim::U64), compact: false, skip: false, docs: vec![] });
+                        what = "gave a variant one more member";
+                    }
+                    5 if vs[i].fields.len() >= 2 => {
+                        vs[i].fields.pop();
+                        what = "dropped the last member of a variant";
                     }
                     1 => {
                         // re-index: swap with an unused index
